@@ -369,3 +369,19 @@ SPECS["C19"] = dict(
         dict(id="control", run="^TestC19ControlAPI$", quick=dict(shards=8, checks=25, timeout=600, shrinktime=30), thorough=dict(shards=4, checks=2500, timeout=3400, shrinktime=300)),
     ]),
 )
+
+SPECS["C05"] = dict(
+    level="exploration",
+    technique="property-based stress under the Go race detector (rapid): generated mixes of every concurrency-safe API call from several goroutines against live and already closed connections across engine stop; race reports and a per-loop goroutine/overlap record are the oracles",
+    rule="a case is a server configuration with 2..8 loops, ticker on, 4..24 echo connections with ping-pong traffic, and 4..12 goroutines each issuing 10..40 drawn calls (AsyncWrite(v), Wake, Close, CloseWithCallback, SafeContext get/set, Fd, Dup, socket-option setters, EventLoop.Execute/Register/Enroll, Engine.CountConnections/Dup) "
+         "on drawn connections (closed ones included), Engine.Stop after a drawn share of the work; oracle 1: every OnOpen/OnTraffic/OnClose, async callback and runnable of one loop runs on one goroutine, distinct loops on distinct goroutines, never two at once on a loop, a connection never changes loops; "
+         "oracle 2: any race-detector report whose two stacks are inside the framework; non-trivial = at least two loops ran callbacks while at least two external goroutines were issuing calls; distinct = distinct case",
+    assumptions=["the race detector judges only the executed schedules", "Engine.Register is not combined with Round-Robin", "socket-option setters are issued on connections as drawn (a stale descriptor number would only receive option changes)"],
+    overlay=["verifx/c05"] + FX_OVERLAY,
+    max_parallel=8,
+    # -race switches on checkptr, which rejects the poll_opt poller's deliberately unaligned epoll_event.data
+    # access (not a data race): checkptr is switched off for that tag set
+    jobs=[dict(name="c05-" + tagname(tg), pkg="./verifx/c05", tags=tg, race=True, gcflags=("all=-d=checkptr=0" if "poll_opt" in tg else ""), tests=[
+        dict(id="race", run="^TestC05RaceAndConfinement$", quick=dict(shards=4, checks=80, timeout=600, shrinktime=20, env={"GOMAXPROCS": 8}), thorough=dict(shards=4, checks=400, timeout=3400, shrinktime=120, env={"GOMAXPROCS": 8})),
+    ]) for tg in ["", "poll_opt,gc_opt"]],
+)
